@@ -103,8 +103,12 @@ def check_reply(ctx, f, body, tag, what):
         err_e += y
         ctx.ob("O-REPLY", tag + "error-edge-found", bool(err_e) and not mixed,
                "the result of %s is tested for Err" % what if err_e else "the result of %s is never tested for Err" % what, a.where)
+        # a call flagged NoReplyExpected must not be answered: completing over the true edge of the flag test
+        # without a reply is the correct behaviour, so those edges are not a leak
+        from .. import lib_iface as _li
+        flag_true = [(fsb, ftt) for fsb, fc, ftt, fft, hdr_ok in _li.flag_tests(f, body) if hdr_ok and ftt is not None]
         for e in err_e:
-            r = cf.reach_e(body, [e[1]], avoid_blocks=rb)
+            r = cf.reach_e(body, [e[1]], avoid_blocks=rb, avoid_edges=flag_true)
             leak = r & set(mir.exits(body))
             ctx.ob("O-REPLY", tag + "error-is-answered", bool(rb) and not leak,
                    "an Err from %s completes only through an awaited reply_dbus_error" % what if rb and not leak else
